@@ -56,7 +56,9 @@ def stepOpH (sys : Sys) (op : Json) : Sys × Json :=
   | "remFact" => let (s, r) := sys.at n (locRemFactH c id now); (s, res r Json.str)
   | "remRule" => let (s, r) := sys.at n (locRemRuleH c id now); (s, res r Json.str)
   | "enableRule" => let (s, r) := sys.at n (locEnableRuleH c id (jbool op "enable") now); (s, res r (fun _ => Json.bool true))
-  | "noop" => (sys, okJ (Json.bool true))
+  -- requests that only look at the Location object the cache hands out (GetLastUpdatedMem, GetLocationStats,
+  -- ClearLocationStats): one Open, no state access, one Release
+  | "noop" | "lastUpdated" | "locStats" | "clearLocStats" => (sys, okJ (Json.bool true))
   | _ => stepOp sys op
 
 def drvSemBase (kind : Kind) : LocSem where
